@@ -186,6 +186,14 @@ def correspondence(ctx):
             cases.append('c5load %s %s' % (use_ext, g.hexs(d)))
             exprs.append('run_bytes %s %s' % (coq_ext(use_ext), coq_list(d)))
             kinds.append(('bytes', ext, lbl)); dist['%s:%s' % (ext, lbl)] = dist.get('%s:%s' % (ext, lbl), 0) + 1
+    # the former crash inputs of the binary loaders, with and without a SAUCE tail
+    for lbl, c in REGRESSION:
+        parts = c.split()
+        if parts[0] == 'c2load' and parts[1] in g.BINARY:
+            for d in (g.unhex(parts[2]), g.unhex(parts[2]) + plain_sauce_tail(rng)):
+                cases.append('c5load %s %s' % (parts[1], g.hexs(d)))
+                exprs.append('run_bytes %s %s' % (coq_ext(parts[1]), coq_list(d)))
+                kinds.append(('bytes', parts[1], 'regression')); dist['regression'] = dist.get('regression', 0) + 1
     # (2) IcyDraw chunk payloads: outcome class and number of layers
     for ch, data in icy_docs(ctx, seeds.get('icy', []), ctx.n(120, 1500)):
         if doc_too_big(ch): continue
